@@ -113,6 +113,18 @@ def main(tier, seed):
                 bad = "DERIVE attribute %s of budget(20., 8., 2., 9, 4, 2) evaluates to %s, the EXPRESS expression gives %s" % (f[1], f[2], BEH_DERIVE.get(f[1]))
                 if f[1] == "idiv":
                     sigb = "python_div_is_true_division"
+        elif f[0] == "CTOR" and len(f) >= 2:
+            seen_beh += 1
+            got = f[2] if len(f) > 2 else ""
+            want = {"redecl": 3, "redecl_child": 4, "neg_holder": 1}.get(f[1])
+            # a redeclared attribute (SELF\\sup_r.x : INTEGER) adds no constructor parameter
+            if want is not None and (len([x for x in got.split(",") if x]) != want or "error" in got):
+                bad = "constructor of %s takes (%s): %d explicit attributes are inherited or own (a redeclared attribute is not a new one)" % (f[1], got, want)
+        elif f[0] == "BOUNDS" and len(f) == 3:
+            seen_beh += 1
+            want = {"arr_neg": "-1:3", "lst_expr": "1:5"}.get(f[1])
+            if want and f[2] != want:
+                bad = "defined type %s has bounds %s, the schema says %s" % (f[1], f[2], want)
         elif f[0] == "RULE" and len(f) == 3:
             seen_beh += 1
             if f[2] != "ok":
@@ -128,8 +140,8 @@ def main(tier, seed):
         else:
             hist["behaviour_probes"] += 1
     evals += 1
-    if seen_beh < len(BEH_DERIVE) + 3 + len(BEH_SET) and not any(l.startswith("ERR") for l in op_.split("\n")):
-        res.violation("the behaviour probe printed %d observations, %d expected: %s" % (seen_beh, len(BEH_DERIVE) + 3 + len(BEH_SET), (op_ + ep)[-300:]),
+    if seen_beh < len(BEH_DERIVE) + 8 + len(BEH_SET) and not any(l.startswith("ERR") for l in op_.split("\n")):
+        res.violation("the behaviour probe printed %d observations, %d expected: %s" % (seen_beh, len(BEH_DERIVE) + 8 + len(BEH_SET), (op_ + ep)[-300:]),
                       {"input_file": bexp}, found_input=False)
 
     def save(name, text):
